@@ -49,6 +49,14 @@ theorem intended_onesided_is_true_grid (pi Fs : ℚ) (N : ℕ) :
   simp only [eval, intended_onesided, GridExpr.evalEnv, AExpr.evalN, AExpr.eval, count_n]
   exact rfftfreq_scaled_is_true Fs N
 
+/-- `np.fft.rfftfreq(int(n)) * Fs` (the repaired `utils.get_freqs`) -/
+def intended_onesided_int : GridExpr := .mulS (.rfftfreq (.int .n)) .fs
+
+theorem intended_onesided_int_is_true_grid (pi Fs : ℚ) (N : ℕ) :
+    eval intended_onesided_int pi Fs N = trueOneSided Fs N := by
+  simp only [eval, intended_onesided_int, GridExpr.evalEnv, AExpr.evalN, AExpr.eval, count_int_n]
+  exact rfftfreq_scaled_is_true Fs N
+
 theorem intended_twosided_is_true_grid (pi Fs : ℚ) (N : ℕ) :
     eval intended_twosided pi Fs N = trueTwoSided Fs N := by
   simp only [eval, intended_twosided, GridExpr.evalEnv, AExpr.evalN, AExpr.eval, count_n]
@@ -414,6 +422,11 @@ theorem bounds_select_band_no_ub (Fs : ℚ) (hFs : 0 ≤ Fs) (N : ℕ) (lb : ℚ
 
 example : getBounds (trueOneSided 10 5) 2 (some 4) = (1, 3) ∧ sliceBand (trueOneSided 10 5) 2 (some 4) = [2, 4] := by
   decide +kernel
+
+/-- `cache_fft(…, lb, ub)` caches the band `[lb_idx, ub_idx)` but returns ALL frequencies next to it;
+after the repair (`return freqs[lb_idx:ub_idx], cache`) this becomes
+`theorem cache_fft_returns_band : Grids.cache_fft_sliced = some true := rfl` -/
+theorem cache_fft_returns_band_counterexample : Grids.cache_fft_sliced = some false := rfl
 
 /-! ### a sinusoid on bin k0 peaks at bin k0 (and only there) -/
 
